@@ -32,6 +32,9 @@ func runC19(w *World, r *Report) {
 	c19Siblings(w, r)
 	c19SetterTotal(w, r)
 	c19PerItem(w, r)
+	r.Rule("C19/WIRING", "the credential options (Username, Password, PassCredentialsAll, RepoURL) are fed only from the options of the same name and bound to their own command-line flags", 3)
+	checkWiring(w, r, "C19/WIRING", map[string]bool{"Username": true, "Password": true, "PassCredentialsAll": true, "RepoURL": true})
+	checkFlagBinding(w, r, "C19/WIRING", map[string]bool{"Username": true, "Password": true, "PassCredentialsAll": true, "RepoURL": true})
 }
 
 func urlFieldLoad(v ssa.Value, field string) (base ssa.Value, ok bool) {
